@@ -44,7 +44,7 @@ class Settings:
 class MNode:
     """A model node: leaf operation or block (sub-circuit)."""
     __slots__ = ("idx", "kind", "qubits", "chan", "dur", "tag", "fields", "is_block", "sub", "reps",
-                 "parent", "rtype", "multi", "attach", "depth", "explicit", "nchildren", "chans_override", "uid", "origin")
+                 "parent", "rtype", "multi", "attach", "depth", "explicit", "nchildren", "chans_override", "uid", "origin", "pre_dur")
 
     def __init__(self, kind: str = "", qubits: Sequence[int] = (), chan: Optional[str] = None, dur: Any = None,
                  tag: str = "", fields: Optional[Dict[str, Any]] = None, is_block: bool = False,
@@ -69,6 +69,7 @@ class MNode:
         self.chans_override: Optional[Set[Tuple[int, str]]] = None
         self.uid = -1
         self.origin: Optional[MNode] = None
+        self.pre_dur: Optional[float] = None      # duration of a block before its nested repetitions were unrolled
 
 
 # ---- channels ------------------------------------------------------------------------------------------
@@ -154,12 +155,13 @@ def reps_of(node: MNode, S: Settings) -> int:
 
 
 def level_times(level: List[MNode], S: Settings, offset: float = 0.0,
-                out: Optional[Dict[int, Tuple[float, float]]] = None) -> Dict[int, Tuple[float, float]]:
-    """Start/end of every node of one level (keyed by id(node)); heads start at ``offset``."""
+                out: Optional[Dict[int, Tuple[float, float]]] = None, pre: bool = False) -> Dict[int, Tuple[float, float]]:
+    """Start/end of every node of one level (keyed by id(node)); heads start at ``offset``.
+    ``pre``: blocks take the duration they had before their nested repetitions were unrolled."""
     if out is None:
         out = {}
     for n in level:
-        d = duration(n, S)
+        d = n.pre_dur if (pre and n.is_block and n.pre_dur is not None) else duration(n, S)
         if n.multi is not None:
             if n.multi:
                 s = max(out[id(m)][1] for m in n.multi)
@@ -238,6 +240,7 @@ def _copy_level(level: List[MNode]) -> List[MNode]:
                   _copy_level(n.sub) if n.is_block else None, n.reps)
         c.chans_override = n.chans_override
         c.origin = n.origin or n
+        c.pre_dur = n.pre_dur
         c.rtype, c.explicit, c.depth = n.rtype, n.explicit, n.depth
         c.parent = mapping[id(n.parent)] if n.parent is not None else None
         if n.multi is not None:
@@ -266,6 +269,7 @@ def unroll(level: List[MNode], reps: int, S: Settings, stats: Optional[Dict[str,
     base = _copy_level(level)
     for n in base:
         if n.is_block:
+            n.pre_dur = span(n.sub, S)
             n.sub = unroll(n.sub, reps_of(n, S), S, stats)
             n.reps = 1
     out: List[MNode] = list(base)
@@ -277,6 +281,15 @@ def unroll(level: List[MNode], reps: int, S: Settings, stats: Optional[Dict[str,
             times = level_times(out, S, 0.0)
             leaves = [n for n in out if n.nchildren == 0]
             latest = max(leaves, key=lambda n: times[id(n)][1])
+            if stats is not None and len(leaves) > 1:
+                # the library picks the attach leaf with the durations nested blocks have BEFORE they are unrolled
+                pre_times = level_times(out, S, 0.0, pre=True)
+                top_post = max(times[id(n)][1] for n in leaves)
+                top_pre = max(pre_times[id(n)][1] for n in leaves)
+                post_set = {id(n) for n in leaves if abs(times[id(n)][1] - top_post) <= 1e-9}
+                pre_set = {id(n) for n in leaves if abs(pre_times[id(n)][1] - top_pre) <= 1e-9}
+                if not (post_set & pre_set):
+                    stats["unroll_flip"] = stats.get("unroll_flip", 0) + 1
         else:
             leaves, latest = [], None
         heads = [n for n in cp if n.parent is None and n.multi is None]
